@@ -42,10 +42,11 @@ PROPS["C06"] = dict(
           "1-2 byte) packetised by the harness's own RFC 6184/7798/3640 packetiser with PRNG-chosen single/STAP-A|AP/FU-A|FU per unit, "
           "sequence numbers starting near 65535; fed to rtp.NewDemuxer with a recording FrameWriter and a sentinel unit. Loss cases: 2-4 "
           "fragmented units, faults = every single-loss position, pairs, runs, adjacent swaps, random multi-loss. A case is distinct by "
-          "(codec, size class, set of packet kinds used, unit count, seq wrap) resp. (codec, fault pattern by fragment kind, unit count)"),
+          "(codec, size class, set of packet kinds used, unit count, seq wrap) resp. (codec, fault pattern by fragment kind, unit count)"
+          ' Sequences start anywhere in the 32-bit RTP timestamp range: a fifth of them cross 2^31 and a fifth wrap past 2^32 inside the sequence (differences are modular)'),
     level_text=("Generated workload + fault enumeration (loss/reorder positions inside fragmented units) against the real depacketisers; "
                 "oracle = list equality with the source units / only-whole-units-in-order under loss, PTS arithmetic per RTP timestamp"),
-    level_note="trusted: the harness packetiser (kit/rtpgen.go); DTS is not judged (not in the statement); RTCP SR mid-stream and RTP timestamp wrap are unjudged",
+    level_note="trusted: the harness packetiser (kit/rtpgen.go); DTS is not judged (not in the statement); a sender report arriving mid-stream re-bases the clock (ipchub synchronises to the first report) - outside the quantifier, unjudged",
     technique="runtime monitor: differential list-equality oracle over generated packetisations + enumerated loss/swap faults",
     assumptions=["parameter sets are supplied through the SDP so the depacketiser is ready from the first packet",
                  "filler data NAL (type 12) is excluded: dropped by design"],
@@ -58,7 +59,8 @@ PROPS["C03"] = dict(
           "party runs to completion): A stop(StopConsume|Stream.Close|Unregist) x delivery goroutine (5 orderings x RTP|FLV), B stream "
           "close x attach (5 orderings incl. attach-after-close), C Remove x RemoveAndCloseAll (2), D converter Close x converter loop "
           "(3 orderings x rtp demuxer|flv muxer|ts muxer), F source of a retired stream ends, each repeated; service part: clients on rtsp-tcp/ws-rtsp/wsp/http-flv/ws-flv/rtsp-udp x stream end by publisher disconnect/replacement/REST delete/UnregistAll; E concurrent random histories (2-4 workers, 1-3 streams, "
-          "attach/stop/publish/close/replace) with seeded delays at 14 hook points. A case is distinct by its scenario name / history shape"),
+          "attach/stop/publish/close/replace) with seeded delays at 14 hook points. A case is distinct by its scenario name / history shape"
+          " Service scenario replaced-then-old-consumers-stop: a second publisher displaces a stream that stays alive (its publisher is connected, six clients attached); the old stream's clients stop one by one and must be released from the OLD stream while two clients of the NEW stream keep receiving"),
     level_text=("Schedule exploration of the real media package: every named two-party ordering is forced deterministically with gates and "
                 "observed, plus perturbed concurrent histories; oracle = close-exactly-once ledger, consumer count, goroutine enter/exit "
                 "ledger, goroutine-profile state (parked in sync.Cond.Wait with no possible waker = violation; else inconclusive)"),
@@ -93,7 +95,8 @@ PROPS["C01"] = dict(
           "to media.Stream; (1) sequential scenarios with 1..64 recording consumers attaching/detaching at PRNG-chosen publish indices: exact "
           "oracle (record == published[attach:detach]) and a differential rerun of one consumer alone; (2) racy scenarios: publisher, attach "
           "and detach goroutines with seeded delays at 8 hook points, interval oracle on the shared logical clock. Distinct by (packet count "
-          "class, consumer count)"),
+          "class, consumer count)"
+          ' Transports part: one stream is played over rtsp-tcp, ws-rtsp, wsp, rtsp-udp, multicast (shard 0), http-flv and ws-flv at once; the published sequence contains a back-to-back burst of 48 packets of 9-15 KB (more than the session write buffer within one flush tick); a torn interleaved byte stream is reported as such'),
     level_text=("Recorded-history monitor over the real fan-out path: at-most-once, publish order, byte identity (hash at publish vs hash at "
                 "delivery vs hash after the run), completeness over the attached interval, 1-vs-N independence"),
     level_note=("core (media package) part; per-transport delivery (RTSP/TCP, UDP, ws-rtsp, WSP, HTTP-FLV) is exercised at service level by "
@@ -126,7 +129,8 @@ PROPS["C05"] = dict(
           "against a sequential registry model; plus quiescent-point checks (replaced stream closed or retire task posted, lookup never "
           "returns a closed stream, Count equals live set); (2) forced orderings Regist x Regist (gate between load and store), "
           "Unregist(retired) after Regist(successor), Close then Get; (3) sequential random histories (5-40 steps) with Get/Count/Infos "
-          "against the model after every step; (4) the idle-close decision for 6 audience kinds x 2 close reasons. Distinct by history shape"),
+          "against the model after every step; (4) the idle-close decision for 6 audience kinds x 2 close reasons. Distinct by history shape"
+          " Spellings part: generated non-canonical spellings of one path (case, blanks, missing leading slash, doubled slashes, '.' elements and 'x/..' detours anywhere including as the last element), accepted by an independent canonicaliser, must all name one registry key (create/lookup/replace/unregister/count under three different spellings)"),
     level_text=("Linearizability checking of recorded concurrent histories (porcupine) against a 10-line sequential model of the registry, "
                 "plus forced schedules and model equality at quiescent points"),
     level_note="library level (media package); GetOrCreate races and the REST listing/DELETE are exercised in C20 / service-level scenarios",
@@ -142,7 +146,8 @@ PROPS["C12"] = dict(
           "tcp|udp|multicast x play|record, SETUP bad transport|unknown control, PLAY, RECORD, PAUSE, GET_PARAMETER, TEARDOWN, FOO}: exhaustive "
           "to length 2 (quick) / 3 (thorough) on the full alphabet, exhaustive to length 4 / 5 on a 10-symbol alphabet with one representative per "
           "automaton edge, plus 500 (quick) / 30000 (thorough) seeded random sequences of length 3-12; one fresh real connection per sequence (TCP; every 7th over ws-rtsp) to "
-          "the in-process server while a real RECORD publisher feeds the source stream. Distinct by (transport, sequence)"),
+          "the in-process server while a real RECORD publisher feeds the source stream. Distinct by (transport, sequence)"
+          " Multicast (shard 0): members SETUP RTP/AVP;multicast one after another on one stream and leave by TEARDOWN or disconnect; after each the stream's consumer count and the connection counter are back"),
     level_text=("Reference-automaton monitor over real sockets: per request exactly one response (decided by CSeq order against an OPTIONS probe, "
                 "never by timeout), CSeq echo, constant Session id, status class and successor state per the automaton, no media before 200 PLAY, "
                 "no registration before 200 RECORD, counters/registry/consumers back to baseline after disconnect"),
@@ -177,7 +182,8 @@ PROPS["C11"] = dict(
           "Digest play and publish, ws-rtsp play, ANNOUNCE/RECORD inside a ws-rtsp session, WSP control, HTTP-FLV, WS-FLV, HLS playlist and "
           "segment, /api/v1 GET users / POST routes / DELETE stream; plus an attacker that derives the process counter from a disclosed "
           "Session id and tries 257 computed tokens, and a WSP data channel joining a foreign control channel. Distinct by "
-          "(entry, action, credential kind, reference decision, outcome)"),
+          "(entry, action, credential kind, reference decision, outcome)"
+          " A third of the HTTP-borne probes additionally claim to be the administrator in request headers a normal client never sends (the server's internal identity header under both spellings, X-Forwarded-User, Username); the reference verdict depends on the token alone"),
     level_text=("Reference-monitor oracle: allow(user, action, path) from the table as last saved (C16 reference matcher) versus the outcome class "
                 "(granted = media bytes / 2xx / registered stream; refused = 401/403) seen by scripted clients on real sockets"),
     level_note=("'a token cannot be computed from disclosed identifiers' is decided only for the implemented attacker strategy; stream query APIs "
